@@ -69,13 +69,58 @@ Section PcaProof.
     rewrite (sum_centred N X i HN), (sum_centred N X j HN). fold mi mj. field. assumption.
   Qed.
 
+  (* the CURRENT code (fix F49) accumulates centred vectors: for ANY vector m handed in as `mean`
+     the accumulated upper triangle denotes 1/N sum (x - m)(x - m)^T *)
+  Lemma read_upper_cov_accumulated_centred N (X : mat F) (m : vec F) i j :
+    read_upper (cov_accumulated_centred N X m) i j =
+    sumn N (fun k => (X k i - m i) * (X k j - m j)) / of_nat N.
+  Proof.
+    unfold cov_accumulated_centred. rewrite read_upper_mdiv, read_upper_cov_loop, read_upper_mzero.
+    f_equal. ring.
+  Qed.
+
   (* THEOREM cov_is_covariance: the CURRENT compute_covariance_matrix returns, in EVERY entry
-     (both triangles), the sample covariance of the data; any D, any N <> 0 *)
+     (both triangles), the sample covariance of the data; any D, any N (for the centred loop the
+     hypothesis N <> 0 is not even needed: cov_is_covariance_every_N) *)
+  Theorem cov_is_covariance_every_N N (X : mat F) :
+    forall i j, pca_matrix N X i j = cov_spec N X i j.
+  Proof.
+    intros i j. unfold pca_matrix, compute_covariance, sym_from_upper.
+    rewrite read_upper_cov_accumulated_centred. reflexivity.
+  Qed.
+
   Theorem cov_is_covariance N (X : mat F) :
     of_nat N <> 0 -> forall i j, pca_matrix N X i j = cov_spec N X i j.
+  Proof. intros _. apply cov_is_covariance_every_N. Qed.
+
+  (* the EXPANDED form (F8 .. F49) is the covariance as well, over an exact field and for N <> 0 *)
+  Theorem cov_expanded_is_covariance N (X : mat F) :
+    of_nat N <> 0 -> forall i j, pca_matrix_expanded N X i j = cov_spec N X i j.
   Proof.
-    intros HN i j. unfold pca_matrix, compute_covariance, sym_from_upper.
+    intros HN i j. unfold pca_matrix_expanded, compute_covariance_expanded, sym_from_upper.
     rewrite read_upper_cov_accumulated, cov_spec_expand by assumption. reflexivity.
+  Qed.
+
+  (* ... so the two forms are EQUAL, entry by entry: the exact model cannot distinguish them.  They
+     differ in binary64 only: the expanded form subtracts two numbers of size |x|^2 (absolute error
+     ~ N eps |x|^2), the centred form never forms anything larger than the spread squared *)
+  Theorem cov_centred_equals_expanded N (X : mat F) :
+    of_nat N <> 0 -> forall i j, pca_matrix N X i j = pca_matrix_expanded N X i j.
+  Proof.
+    intros HN i j. rewrite cov_is_covariance_every_N, cov_expanded_is_covariance by assumption. reflexivity.
+  Qed.
+
+  (* with a vector m that is NOT the mean the two forms differ (which is why the mean handed in matters):
+     centred(m) - expanded(m) = (m - mean)(m - mean)^T + ... ; stated for the accumulated triangles *)
+  Theorem cov_centred_vs_expanded_any_m N (X : mat F) (m : vec F) i j :
+    of_nat N <> 0 ->
+    read_upper (cov_accumulated_centred N X m) i j - read_upper (cov_accumulated N X m) i j =
+    (two * m i * m j - m i * mean_vec N X j - mean_vec N X i * m j).
+  Proof.
+    intros HN. rewrite read_upper_cov_accumulated_centred, read_upper_cov_accumulated.
+    rewrite (sumn_ext N _ (fun k => X k i * X k j - m j * X k i - m i * X k j + m i * m j)) by (intros; ring).
+    rewrite sumn_add, !sumn_sub, !sumn_mul_l, sumn_const.
+    rewrite (sum_centred N X i HN), (sum_centred N X j HN). unfold two. field. assumption.
   Qed.
 
   Lemma cov_spec_sym N (X : mat F) n : msym n (cov_spec N X).
@@ -203,9 +248,10 @@ Section PcaProof.
     apply Nat.eqb_eq. apply H. assumption.
   Qed.
 
-  Theorem compute_covariance_exec_ok N D (Xs : list (list F)) (mean : list F) :
+  Theorem compute_covariance_expanded_exec_ok N D (Xs : list (list F)) (mean : list F) :
     wf_mat N D Xs -> length mean = D ->
-    compute_covariance_exec D Xs mean = POk (mtab D D (compute_covariance N (mof Xs) (vof mean))) /\
+    compute_covariance_expanded_exec D Xs mean =
+      POk (mtab D D (compute_covariance_expanded N (mof Xs) (vof mean))) /\
     compute_covariance_old_exec D Xs mean = POk (mtab D D (compute_covariance_old N (mof Xs) (vof mean))).
   Proof.
     intros [HN HX] Hm.
@@ -214,7 +260,47 @@ Section PcaProof.
     { unfold compute_covariance_old_exec. rewrite (forallb_len_ok D Xs HX), Hm, Nat.eqb_refl.
       cbn [negb]. rewrite cov_accumulated_exec_ok, HN. reflexivity. }
     split; [|exact E].
-    unfold compute_covariance_exec. rewrite E. f_equal. apply mtab_ext.
+    unfold compute_covariance_expanded_exec. rewrite E. f_equal. apply mtab_ext.
+    intros i j Hi Hj. unfold compute_covariance_expanded, sym_from_upper, read_upper.
+    destruct (Nat.leb i j); rewrite mof_mtab by assumption; reflexivity.
+  Qed.
+
+  (* the centred samples, as lists *)
+  Lemma mof_map_zip_sub N D (Xs : list (list F)) (mean : list F) k t :
+    wf_mat N D Xs -> length mean = D -> k < N -> t < D ->
+    mof (map (fun x => zip_sub x mean) Xs) k t = mof Xs k t - vof mean t.
+  Proof.
+    intros [HN HX] Hm Hk Ht. unfold mof.
+    rewrite (nth_indep _ [] (zip_sub [] mean)) by (rewrite map_length; lia).
+    rewrite (map_nth (fun x => zip_sub x mean)). unfold vof.
+    rewrite Forall_forall in HX.
+    assert (Hl : length (nth k Xs []) = D) by (apply HX; apply nth_In; lia).
+    apply zip_sub_nth; lia.
+  Qed.
+
+  Lemma cov_accumulated_centred_exec_ok N D (Xs : list (list F)) (mean : list F) :
+    wf_mat N D Xs -> length mean = D ->
+    cov_accumulated_centred_exec D Xs mean =
+    mtab D D (cov_accumulated_centred N (mof Xs) (vof mean)).
+  Proof.
+    intros HX Hm. unfold cov_accumulated_centred_exec, cov_accumulated_centred. apply mtab_ext. intros i j Hi Hj.
+    unfold mdiv. destruct HX as [HN HXD]. rewrite HN. f_equal.
+    rewrite (cov_loop_exec_ok D (map (fun x => zip_sub x mean) Xs) (mtab D D mzero) i j Hi Hj).
+    rewrite map_length, HN.
+    apply (cov_loop_meq D N); try assumption.
+    - apply mof_mtab_meq.
+    - intros k Hk t Ht. apply (mof_map_zip_sub N D); try assumption. split; assumption.
+  Qed.
+
+  Theorem compute_covariance_exec_ok N D (Xs : list (list F)) (mean : list F) :
+    wf_mat N D Xs -> length mean = D ->
+    compute_covariance_exec D Xs mean = POk (mtab D D (compute_covariance N (mof Xs) (vof mean))) /\
+    compute_covariance_old_exec D Xs mean = POk (mtab D D (compute_covariance_old N (mof Xs) (vof mean))).
+  Proof.
+    intros HX Hm. split; [|apply (compute_covariance_expanded_exec_ok N D Xs mean HX Hm)].
+    unfold compute_covariance_exec. destruct HX as [HN HXD].
+    rewrite (forallb_len_ok D Xs HXD), Hm, Nat.eqb_refl. cbn [negb]. f_equal.
+    rewrite (cov_accumulated_centred_exec_ok N D Xs mean (conj HN HXD) Hm). apply mtab_ext.
     intros i j Hi Hj. unfold compute_covariance, sym_from_upper, read_upper.
     destruct (Nat.leb i j); rewrite mof_mtab by assumption; reflexivity.
   Qed.
@@ -232,10 +318,29 @@ Section PcaProof.
                          (cov_accumulated N (mof Xs) (mean_vec N (mof Xs)))).
     { intros i j Hi Hj. unfold cov_accumulated, rank_update_upper.
       rewrite !vof_vtab by assumption. reflexivity. }
+    assert (HCc : meq D D (cov_accumulated_centred N (mof Xs) (vof (vtab D (mean_vec N (mof Xs)))))
+                          (cov_accumulated_centred N (mof Xs) (mean_vec N (mof Xs)))).
+    { intros i j Hi Hj. unfold cov_accumulated_centred, mdiv. f_equal.
+      apply (cov_loop_meq D N); try assumption; [apply meq_refl|].
+      intros k _ t Ht. rewrite vof_vtab by assumption. reflexivity. }
     split; f_equal; apply mtab_ext; intros i j Hi Hj.
     - unfold pca_matrix, compute_covariance, sym_from_upper, read_upper.
-      destruct (Nat.leb i j); apply HC; assumption.
+      destruct (Nat.leb i j); apply HCc; assumption.
     - unfold pca_matrix_old, compute_covariance_old. apply HC; assumption.
+  Qed.
+
+  Theorem pca_matrix_expanded_exec_ok N D (Xs : list (list F)) :
+    wf_mat N D Xs ->
+    pca_matrix_expanded_exec D Xs = POk (mtab D D (pca_matrix_expanded N (mof Xs))).
+  Proof.
+    intros HX. unfold pca_matrix_expanded_exec.
+    rewrite (compute_mean_exec_ok N D Xs HX).
+    assert (Hl : length (vtab D (mean_vec N (mof Xs))) = D) by apply tab_length.
+    destruct (compute_covariance_expanded_exec_ok N D Xs _ HX Hl) as [E1 _]. rewrite E1.
+    f_equal. apply mtab_ext. intros i j Hi Hj.
+    unfold pca_matrix_expanded, compute_covariance_expanded, sym_from_upper, read_upper, cov_accumulated,
+      rank_update_upper.
+    destruct (Nat.leb i j); rewrite !vof_vtab by assumption; reflexivity.
   Qed.
 
   (* ---------------- 4. from the oracle contract ---------------- *)
